@@ -57,7 +57,7 @@ PROPS["C01"] = dict(
 
 PROPS["C14"] = dict(
     modules=["Morlock.Props.C14", "Morlock.Props.GenTie"],
-    streams=["fencanon", "game"],
+    streams=["fencanon", "game", "engine"],
     level_text="Lean: every finite component of the FEN codec is proved to round-trip (16 rights sets, sides, 64 squares, 12 piece letters); the placement "
                "round-trip and the reported-FEN claim are decided by differential streams: decode/encode of canonical FENs impl vs model vs an independent strict "
                "FEN reader/writer, and Engine/Board-reported FEN along game histories vs the standard clocks recomputed from the whole history (Spec.Game).",
@@ -71,13 +71,13 @@ PROPS["C14"] = dict(
 
 PROPS["C19"] = dict(
     modules=["Morlock.Props.C19"],
-    streams=["fenstrings"],
+    streams=["fenstrings", "engine"],
     level_text="Lean: the decoders are total functions in the model (no partial definitions); the theorem placements_in_range shows every square the placement loop "
                "hands to NewPosition is < 64 and strictly decreasing (no index out of range, no duplicate), for ALL strings; the repaired overflow witness is "
                "proved rejected. Tie: grammar-based mutations, Unicode digits/letters, over-long digit runs, raw bytes run on the implementation with panics "
                "mapped to an outcome class and compared with the model; accepted FENs must re-encode to a FEN decoding to the same position with consistent views.",
     level_note="Trusted: Lean kernel; Model.Fen tied by the fenstrings stream (outcome class + re-encoded FEN exact); Go string->rune conversion. "
-               "Engine.Move acceptance (iff legal) is covered under C10/C01 streams.",
+               "Engine.Move / TakeBack / Reset are driven through the real engine.Engine with rejected text interleaved (engine stream): accepted iff the text denotes a legal move of the reference, rejected input leaves every getter unchanged.",
     technique="Lean 4 totality-by-construction + range theorem over all strings; differential fuzzing impl vs model",
     rule="valid FEN x {token deletion/duplication/swap, digit inflation 0/9, long digit runs, Unicode digits & letters, NUL/tab/NBSP, field count changes, huge/negative/signed clocks} "
          "+ raw bytes + move/square strings; non-trivial = accepted, or longer than 10 runes; distinct by rune sequence",
